@@ -21,14 +21,20 @@ type prophetState struct {
 	lastEmit   map[string]float64            // previous emission
 	haveEmit   bool
 	lastKey    [2]uint64
-	agedSince  bool                          // an ageing tick ran since the previous emission
-	raised     map[string]bool               // keys an encounter/import may have raised since then
+	events     []prophetEvent                // encounters / imports / ageing ticks with the instant they happened
+	lastCreated time.Time
 	pInit, beta, gamma float64
+}
+
+type prophetEvent struct {
+	at  time.Time
+	age bool
+	key string
 }
 
 func (n *nodeSim) prophet() *prophetState {
 	if n.pst == nil {
-		n.pst = &prophetState{ref: map[string]float64{}, adv: map[int]map[string]float64{}, raised: map[string]bool{},
+		n.pst = &prophetState{ref: map[string]float64{}, adv: map[int]map[string]float64{},
 			pInit: n.c.CfgF("p_init", 0.75), beta: n.c.CfgF("beta", 0.25), gamma: n.c.CfgF("gamma", 0.98)}
 	}
 	return n.pst
@@ -113,7 +119,7 @@ func (n *nodeSim) execVec(p int, x []int, notForUs bool) {
 		for _, k := range keys {
 			old := st.ref[k]
 			st.ref[k] = old + (1-old)*pp*plain[k]*st.beta
-			st.raised[k] = true
+			st.events = append(st.events, prophetEvent{at: time.Now(), key: k})
 		}
 		n.res.Probe("prophet_vector_imported")
 	} else {
@@ -136,7 +142,7 @@ func (n *nodeSim) prophetOnPeerUp(ps *peerState) {
 	k := ps.eid.String()
 	old := st.ref[k]
 	st.ref[k] = old + (1-old)*st.pInit
-	st.raised[k] = true
+	st.events = append(st.events, prophetEvent{at: time.Now(), key: k})
 }
 
 func (n *nodeSim) prophetOnAgeTick() {
@@ -144,7 +150,7 @@ func (n *nodeSim) prophetOnAgeTick() {
 	for k, v := range st.ref {
 		st.ref[k] = v * st.gamma
 	}
-	st.agedSince = true
+	st.events = append(st.events, prophetEvent{at: time.Now(), age: true})
 	n.res.Probe("prophet_ageing_tick")
 }
 
@@ -191,7 +197,23 @@ func (n *nodeSim) prophetEmission(rec *sendRec) {
 			n.res.Violate("C19", "range", "predictability-outside-unit-interval", "the node advertises P(%s)=%v (constants p_init=%v beta=%v gamma=%v)", k, v, st.pInit, st.beta, st.gamma)
 		}
 	}
+	// what happened between the creation of the previous emission and the creation of this one
+	// (millisecond resolution of the creation time: one millisecond of slack on both sides)
+	created := ct.DtnTime().Time()
 	if st.haveEmit {
+		lo, hi := st.lastCreated.Add(-time.Millisecond), created.Add(2*time.Millisecond)
+		aged := false
+		raised := map[string]bool{}
+		for _, ev := range st.events {
+			if ev.at.Before(lo) || ev.at.After(hi) {
+				continue
+			}
+			if ev.age {
+				aged = true
+			} else {
+				raised[ev.key] = true
+			}
+		}
 		old := make([]string, 0, len(st.lastEmit))
 		for k := range st.lastEmit {
 			old = append(old, k)
@@ -199,15 +221,15 @@ func (n *nodeSim) prophetEmission(rec *sendRec) {
 		sort.Strings(old)
 		for _, k := range old {
 			was, now := st.lastEmit[k], vec[k]
-			if !st.agedSince && now < was {
+			if !aged && now < was {
 				n.res.Violate("C19", "monotone", "predictability-lowered-without-ageing", "P(%s) went from %v to %v although only encounters and vector imports happened in between", k, was, now)
 			}
-			if st.agedSince && !st.raised[k] && now > was {
+			if aged && !raised[k] && now > was {
 				n.res.Violate("C19", "monotone", "predictability-raised-by-ageing", "P(%s) went from %v to %v although only ageing happened to it in between", k, was, now)
 			}
 		}
 	}
-	st.lastEmit, st.haveEmit, st.agedSince, st.raised = vec, true, false, map[string]bool{}
+	st.lastEmit, st.haveEmit, st.lastCreated = vec, true, created
 	// resynchronise the reference with what the node says it holds
 	st.ref = map[string]float64{}
 	for k, v := range vec {
